@@ -1469,6 +1469,23 @@ pub mod verif_hooks {
     }
 
     /// Occupies one slot of the listener queue for requests with (`wait_queue`) or without the wait flag.
+    /// Total capacity of one of the two listener queues (None once the listener is gone).
+    pub fn mux_listen_capacity<Si, St>(mux: &ChMux<Si, St>, wait_queue: bool) -> Option<usize> {
+        mux.listen_tx.as_ref().map(|(wait_tx, no_wait_tx)| {
+            if wait_queue { wait_tx.max_capacity() } else { no_wait_tx.max_capacity() }
+        })
+    }
+
+    /// Capacity of the shared port-event queue.
+    pub fn mux_channel_capacity<Si, St>(mux: &ChMux<Si, St>) -> usize {
+        mux.channel_tx.max_capacity()
+    }
+
+    /// Protocol version and configuration recorded for the peer.
+    pub fn mux_remote<Si, St>(mux: &ChMux<Si, St>) -> (u8, ExchangedCfg) {
+        (mux.remote_protocol_version, mux.remote_cfg.clone())
+    }
+
     pub fn mux_listen_fill<Si, St>(mux: &ChMux<Si, St>, wait_queue: bool) -> bool {
         match &mux.listen_tx {
             Some((wait_tx, no_wait_tx)) => {
